@@ -231,7 +231,7 @@ class VerifyResult:
         }
 
 
-def verify(spec, tier="quick", summaries=None, only_props=None):
+def verify(spec, tier="quick", summaries=None, only_props=None, part=None):
     """Check the real body of spec.fq against spec on every path of every variant."""
     repo = get_repo()
     res = VerifyResult(spec)
@@ -243,7 +243,10 @@ def verify(spec, tier="quick", summaries=None, only_props=None):
     if summaries:
         summ.update(summaries)
     short = (spec.key or spec.fq).split(":")[1]
-    for variant in spec.variants(tier):
+    allv = list(spec.variants(tier))
+    if part is not None:
+        allv = allv[part[0] :: part[1]]
+    for variant in allv:
         ex = Explorer()
         vname = "" if variant is None else "{%s}" % (variant if isinstance(variant, str) else ",".join(str(x) for x in variant))
         pathno = [0]
